@@ -76,15 +76,20 @@ where
             return Poll::Ready(Err(error.clone()));
         };
 
+        // Register the waker before looking at the error state. A stream task sets the
+        // error and then wakes the registered waker; with the check first, an error set
+        // between the check and the registration would find no waker and this task
+        // would sleep with the error set.
+        self.waker().register(cx.waker());
+        #[cfg(hyperium_h3_verif)]
+        crate::verif_hooks::point("poll_connection_error:between");
+
         // Check if the connection is in error state
         if let Some(err) = self.get_conn_error() {
             let err = self.close_if_needed(err);
             // err might be a different error so match again
             return Poll::Ready(Err(self.convert_to_connection_error(err)));
         }
-        #[cfg(hyperium_h3_verif)]
-        crate::verif_hooks::point("poll_connection_error:between");
-        self.waker().register(cx.waker());
         Poll::Pending
     }
 
